@@ -1,25 +1,26 @@
 (* Proofs/NamesCase.v -- is_von_name (Model/Names.v, through scan_bibtex_string) against the case
    rule of the property text (Spec/Names.v token_case), in full (after the repair of FC04a). *)
-From Pybtex Require Import Base.Prelude Base.PyChar Base.PyStr Model.BibtexStr Model.Names Spec.Names.
+From Pybtex Require Import Base.Prelude Base.PyChar Base.PyStr Model.BibtexStr Model.NamesUni Model.Names Spec.Names.
 
-Lemma upper_not_lower c : is_upper c = true -> is_lower c = false.
-Proof.
-  unfold is_upper, is_lower. intros H. apply andb_prop in H as [_ H]. apply N.leb_le in H.
-  apply andb_false_intro1. apply N.leb_gt. lia.
-Qed.
+Lemma upper_not_lower c : uni_is_upper c = true -> uni_is_lower c = false.
+Proof. unfold uni_is_upper, uni_is_lower. intros H. apply N.eqb_eq in H. now rewrite H. Qed.
 
-Lemma alpha_not_brace c : is_alpha c = true -> N.eqb c c_lbrace = false /\ N.eqb c c_rbrace = false.
+Lemma upper_alpha c : uni_is_upper c = true -> uni_is_alpha c = true.
+Proof. unfold uni_is_upper, uni_is_alpha. intros H. apply N.eqb_eq in H. now rewrite H. Qed.
+
+Lemma lower_alpha c : uni_is_lower c = true -> uni_is_alpha c = true.
+Proof. unfold uni_is_lower, uni_is_alpha. intros H. apply N.eqb_eq in H. now rewrite H. Qed.
+
+Lemma alpha_not_brace c : uni_is_alpha c = true -> N.eqb c c_lbrace = false /\ N.eqb c c_rbrace = false.
 Proof.
-  unfold is_alpha, is_upper, is_lower, c_lbrace, c_rbrace. intros H.
-  apply orb_prop in H as [H|H]; apply andb_prop in H as [H1 H2]; apply N.leb_le in H1, H2;
-  split; apply N.eqb_neq; lia.
+  intros H. split; apply N.eqb_neq; intros ->; vm_compute in H; discriminate.
 Qed.
 
 (* special_char_islower = "first letter after the control sequence" *)
 Lemma scil_go_spec s : scil_go s true = first_letter_lower (skip_control_word s) /\ scil_go s false = first_letter_lower s.
 Proof.
   induction s as [|c t [IH1 IH2]]; cbn; [auto|].
-  destruct (is_alpha c); auto.
+  destruct (uni_is_alpha c); auto.
 Qed.
 
 Lemma special_char_islower_spec body : special_char_islower body = special_is_lower body.
@@ -83,7 +84,7 @@ Proof.
         assert (Ec : c = c_rbrace) by now apply N.eqb_eq. subst c.
         destruct d as [|d]; cbn [Nat.ltb Nat.leb andb pred].
         -- destruct (scan_go t 0 None) as [r0| | |] eqn:Sc; cbn [bind]; try discriminate.
-           intros [= <-]. cbn [von_scan]. change (is_alpha c_rbrace) with false. cbv iota.
+           intros [= <-]. cbn [von_scan]. change (uni_is_alpha c_rbrace) with false. cbv iota.
            apply IH; [discriminate|exact Sc].
         -- change (Nat.ltb 0 (S d)) with true. cbv iota.
            destruct (scan_go t d None) as [r0| | |] eqn:Sc; cbn [bind]; try discriminate.
@@ -98,7 +99,7 @@ Proof.
         assert (Ho : forall l, is_open1 ([c], l) = false).
         { intros l. unfold is_open1. cbn [fst snd]. rewrite El. apply andb_false_r. }
         destruct d as [|[|d]]; cbn [von_scan]; rewrite ?Ho.
-        -- destruct (is_alpha c); [reflexivity|]. apply IH; [discriminate|exact Sc].
+        -- destruct (uni_is_alpha c); [reflexivity|]. apply IH; [discriminate|exact Sc].
         -- assert (Hb : N.eqb c c_bslash && po = false).
            { destruct po; [|apply andb_false_r]. rewrite (Hpo eq_refl). reflexivity. }
            rewrite Hb. apply IH; [discriminate|exact Sc].
@@ -109,13 +110,13 @@ Qed.
 Lemma token_case_rule_pf tok b : is_von_name tok = Ok b -> b = spec_is_von tok.
 Proof.
   destruct tok as [|c t]; [discriminate|]. unfold is_von_name, spec_is_von.
-  destruct (is_upper c) eqn:Eu.
+  destruct (uni_is_upper c) eqn:Eu.
   - intros [= <-]. cbn [token_case].
-    assert (Ha : is_alpha c = true) by (unfold is_alpha; rewrite Eu; reflexivity).
+    assert (Ha : uni_is_alpha c = true) by now apply upper_alpha.
     destruct (alpha_not_brace c Ha) as [-> ->]. rewrite Ha. cbn. symmetry. now apply upper_not_lower.
-  - destruct (is_lower c) eqn:Elo.
+  - destruct (uni_is_lower c) eqn:Elo.
     + intros [= <-]. cbn [token_case].
-      assert (Ha : is_alpha c = true) by (unfold is_alpha; rewrite Elo; apply orb_true_r).
+      assert (Ha : uni_is_alpha c = true) by now apply lower_alpha.
       destruct (alpha_not_brace c Ha) as [-> ->]. rewrite Ha. cbn. now rewrite Elo.
     + unfold scan. destruct (scan_go (c :: t) 0 None) as [ts| | |] eqn:Sc; cbn [bind]; try discriminate.
       intros [= <-]. fold (case_bool (token_case (c :: t) 0)).
@@ -125,3 +126,12 @@ Qed.
 (* the former counterexample of finding FC04a (fixed by 82be377) *)
 Example fixed_on_counterexample : is_von_name (s2l "{a\b}c") = Ok true.
 Proof. vm_compute. auto. Qed.
+
+(* a token that begins with a caseless letter (Hebrew, Arabic, CJK ...: a letter that is neither upper- nor
+   lower-case) is not a von token: its first brace-level-0 letter is not lowercase *)
+Lemma caseless_first_letter_not_von_pf c t b : uni_class c = 1%N -> is_von_name (c :: t) = Ok b -> b = false.
+Proof.
+  intros Hc H. apply token_case_rule_pf in H. subst b. unfold spec_is_von. cbn [token_case].
+  assert (Ha : uni_is_alpha c = true) by (unfold uni_is_alpha; now rewrite Hc).
+  destruct (alpha_not_brace c Ha) as [-> ->]. rewrite Ha. unfold uni_is_lower. now rewrite Hc.
+Qed.
